@@ -400,5 +400,5 @@ VARIANTS = [
     Variant("routing-key-in-live-outputs", CA, replace_once("    to_cache = dict(outputs)\n", "    to_cache = outputs\n"), set(), note="decided by C09.R4 (copy on store); C16.R4 checks where the key is written"),
     Variant("on-missing-error-only-warns", HP, replace_once("    elif on_missing == \"error\":\n        raise ValueError(msg)", "    elif on_missing == \"error\":\n        import warnings\n\n        warnings.warn(msg, UserWarning, stacklevel=6)"), {"C16.R5"}),
     Variant("on-missing-not-validated-up-front", TS, replace_once("        _validate_on_missing(on_missing)\n        _validate_error_handling(error_handling)\n\n        max_iter", "        _validate_error_handling(error_handling)\n\n        max_iter"), {"C16.R5"}),
-    Variant("nested-exposes-all", "src/hypergraph/nodes/graph_node.py", replace_once("        self.outputs = graph.selected if graph.selected is not None else graph.outputs", "        self.outputs = graph.outputs"), {"C16.R6"}),
+    Variant("nested-exposes-all", "src/hypergraph/nodes/graph_node.py", replace_once("        exposed = graph.selected if graph.selected is not None else graph.outputs", "        exposed = graph.outputs"), {"C16.R6"}),
 ]
